@@ -31,6 +31,7 @@ type c11Client struct {
 	Body    int    `json:"body"`
 	K       int    `json:"k"`
 	StartMs int    `json:"start_ms"` // client starts this long after t0
+	KA10    bool   `json:"ka10,omitempty"` // the client speaks HTTP/1.0 and asks for `Connection: keep-alive`
 }
 
 type c11Case struct {
@@ -60,6 +61,7 @@ func genC11(t *tape.Tape, tier string) any {
 		cl.Body = []int{10, 3000, 40000, 200000}[t.Pick(3, 2, 2, 1)]
 		cl.K = 1 + t.Intn(40)
 		cl.StartMs = []int{0, 0, 50, 900}[t.Intn(4)]
+		cl.KA10 = t.Pick(5, 1) == 1
 		if cl.Kind == "drip-reader" {
 			// the response must be able to finish inside the drain period even at drip speed
 			cl.Body = 2500 + t.Intn(8000)
@@ -300,8 +302,12 @@ func runC11(env *core.Env, ci any) {
 			}
 			defer conn.Close()
 			br := bufio.NewReader(conn)
+			proto, kaField := "HTTP/1.1", ""
+			if cl.KA10 {
+				proto, kaField = "HTTP/1.0", "Connection: keep-alive\r\n"
+			}
 			get := func(suffix string) (*h1.Msg, error) {
-				fmt.Fprintf(conn, "GET http://%s.ok.example/%s%s HTTP/1.1\r\nHost: %s.ok.example\r\n\r\n", tok, tok, suffix, tok)
+				fmt.Fprintf(conn, "GET http://%s.ok.example/%s%s %s\r\nHost: %s.ok.example\r\n%s\r\n", tok, tok, suffix, proto, tok, kaField)
 				conn.SetReadDeadline(time.Now().Add(150 * time.Minute))
 				return h1.ReadResponse(br, "GET")
 			}
@@ -315,7 +321,7 @@ func runC11(env *core.Env, ci any) {
 				untilClosed(conn, br, r)
 			case "slow-origin", "slow-reader", "vanish", "drip-reader":
 				r.reqSentAt, r.reqSentSeq = now(), nextSeq()
-				fmt.Fprintf(conn, "GET http://%s.ok.example/%s HTTP/1.1\r\nHost: %s.ok.example\r\n\r\n", tok, tok, tok)
+				fmt.Fprintf(conn, "GET http://%s.ok.example/%s %s\r\nHost: %s.ok.example\r\n%s\r\n", tok, tok, proto, tok, kaField)
 				if cl.Kind == "vanish" {
 					time.Sleep(time.Duration(cl.K) * 100 * time.Millisecond)
 					if sc, ok := conn.(*simnet.Conn); ok {
@@ -348,7 +354,7 @@ func runC11(env *core.Env, ci any) {
 					r.closedAt = now()
 				}
 			case "mid-head":
-				head := fmt.Sprintf("GET http://%s.ok.example/%s HTTP/1.1\r\nHost: %s.ok.example\r\n\r\n", tok, tok, tok)
+				head := fmt.Sprintf("GET http://%s.ok.example/%s %s\r\nHost: %s.ok.example\r\n%s\r\n", tok, tok, proto, tok, kaField)
 				k := 1 + cl.K%(len(head)-1)
 				r.reqSentAt, r.reqSentSeq = now(), nextSeq()
 				conn.Write([]byte(head[:k]))
@@ -490,6 +496,9 @@ func runC11(env *core.Env, ci any) {
 						env.Fail("shutdown-conn-left-open", f+"/until-the-deadline", "request %s was answered at %v, during shutdown, but the proxy kept that connection open until %v (shutdown requested at %v, Run returned at %v)", tok, r.respAt, r.closedAt, shutdownAt, returnedAt)
 					}
 					env.Probe("inflight_completed_during_shutdown")
+					if cl.KA10 {
+						env.Probe("inflight_http10_keepalive_during_shutdown")
+					}
 				}
 				if logged != nil && logged.seq > shutdownSeq && r.reqSentSeq > shutdownSeq {
 					env.Fail("shutdown-admitted-new-request", f, "request %s was first sent at %v, after the shutdown request (%v), and still reached the origin at %v", tok, r.reqSentAt, shutdownAt, logged.at)
@@ -603,7 +612,7 @@ func init() {
 		},
 		Real:        append([]string{"HTTPProxy.Run / run loop, martian.Proxy.Shutdown / Close / Serve / handleLoop, closing() checks, listener and dialer metrics"}, realForwarder...),
 		Stub:        stubCommon,
-		Rule:        "1-6 client connections in drawn phases when the shutdown request fires (idle, served then idle, request at an origin with latency 0-120 s, head half sent, tunnel copying, response backed up against a slow reader, client vanishing, request sent on an idle connection after shutdown began, connection opened after shutdown began) on a plain or TLS listener with large or tiny link capacity; the shutdown request is a scheduler event that may fire at any step after its earliest time. History oracle over (origin log, shutdown event, Run return) with global sequence numbers + socket ledger + listener_cx_active. Non-trivial = Run returned and all clients were judged. Later additions: drain limit 30 s / 90 s / none, uptime 0 s..4000 s before the first client, PROXY-protocol listener with late headers, compressed origin replies, the shutdown request in the same scheduler step as accepts.",
+		Rule:        "1-6 client connections in drawn phases when the shutdown request fires (idle, served then idle, request at an origin with latency 0-120 s, head half sent, tunnel copying, response backed up against a slow reader, client vanishing, request sent on an idle connection after shutdown began, connection opened after shutdown began) on a plain or TLS listener with large or tiny link capacity; the shutdown request is a scheduler event that may fire at any step after its earliest time. History oracle over (origin log, shutdown event, Run return) with global sequence numbers + socket ledger + listener_cx_active. Non-trivial = Run returned and all clients were judged. Later additions: drain limit 30 s / 90 s / none, uptime 0 s..4000 s before the first client, PROXY-protocol listener with late headers, compressed origin replies, the shutdown request in the same scheduler step as accepts, HTTP/1.0 clients asking for keep-alive.",
 		Assumptions: []string{"an exchange is 'in flight' for rule (a) when the scripted origin logged its request before the shutdown event and answers at least 10 s before the drain limit (30 s shipped, 90 s, or none) expires"},
 	})
 }
